@@ -412,3 +412,27 @@ CHECKS['C15'] = dict(
                             'kernel_calls:celt_pitch_xcorr_avx2': 1000, 'kernel_calls:op_pvq_search_sse2': 1000, 'kernel_calls:comb_filter_const_sse': 1000, 'kernel_calls:silk_burg_modified_sse4_1': 1000, 'kernel_calls:celt_fir_sse4_1': 1000},
                   'thorough': {'live_kernel_comparisons': 20000000}},
 )
+
+CHECKS['C20'] = dict(
+    level='exploration',
+    rule="Each case is an encoder (random Fs, channels, application, complexity 0..10, frame duration 2.5..120 ms, VBR/CBR, bitrate, forced "
+         "mode, DTX on in 4 of 5 cases, buffer 3..40 or 1500 bytes) driven through 3..9 alternating segments of loud modulated speech-like "
+         "input and exact digital silence, all boundaries on packet boundaries, gap lengths dense around 160-240 ms, 360-460 ms, 560-700 ms "
+         "and up to 5 s; the packet-length / OPUS_GET_IN_DTX log is checked by a timeline checker (start of DTX within one frame of the "
+         "200 ms mark when the generalised detector is in charge; every run of <=2-byte packets shorter than 400 ms + one frame and followed "
+         "by a refresh; IN_DTX on every DTX packet; first frame of renewed activity coded normally; no tiny packet with DTX off), and the "
+         "stream is decoded twice (DTX packets fed / dropped and concealed) for durations, silence in the gap and audio after it. One stereo "
+         "case in eight uses an anti-phase (L=-R) stimulus. Distinct = (TOC config, tiny, activity, IN_DTX, frame size, detector, flags, rate).",
+    assumptions=COMMON_ASSUME + ["'active' input is a loud, strongly modulated harmonic signal and 'inactive' input is exact zeros, so the ground truth does not depend on a detector's judgement",
+                                 "<=2-byte packets caused by a budget below 3 bytes per frame are not DTX packets (precondition of the clause)",
+                                 "gap level bound 0.02 RMS after 700 ms of silence; resumed audio within -12..+6 dB of the input level (sanity bounds, measured extremes are in the evidence)"],
+    evals_counter=None,
+    runs=[
+        dict(h='h_c20.c', mode='sched', flavour='prod', n={'quick': 3200, 'thorough': 60000}),
+        dict(h='h_c20.c', mode='sched', flavour='asan', n={'quick': 480, 'thorough': 12000}),
+        dict(h='h_c20.c', mode='sched', flavour='prod-fixed', n={'quick': 800, 'thorough': 20000}),
+    ],
+    min_nontrivial={'quick': 500, 'thorough': 1000},
+    min_counters={'quick': {'packets': 300000, 'dtx_packets': 30000, 'dtx_starts_checked': 500, 'refresh_packets': 1500, 'resumptions_checked': 3000},
+                  'thorough': {'dtx_packets': 500000}},
+)
